@@ -42,7 +42,9 @@ RULE = ('all 140 library units; all ordered pairs of library units plus 34 prefi
 LEVEL_TEXT = ('exhaustive over the shipped unit library for single units, pairs and compatible triples; random '
               'exploration for composite expressions and lookup orders')
 ASSUMPTIONS = ['the reference semantics of names: a library unit name wins; otherwise a one-letter, then a '
-               'two-letter SI/IEC prefix in front of a LIBRARY unit (no compound prefixes); `pi` is the constant',
+               'two-letter SI/IEC prefix in front of a LIBRARY unit (no compound prefixes); `pi` is the constant '
+               '(documented grammar, docs features/core_features/working_with_components/units.ipynb: numbers and '
+               'known units = entries of [base_units]/[units], optionally prefixed, combined with * / **)',
                'expressions OpenMDAO rejects (returns None / raises) are outside the property and only counted',
                'expressions whose factor, or the factor of one of their sub-expressions, leaves [1e-250, 1e250] are skipped (floating-point over/underflow is not the subject)',
                'composite cases run in a freshly imported library, so only `order` cases depend on history',
